@@ -14,4 +14,5 @@ import GoguVerif.Theorems.C01
 import GoguVerif.Theorems.C02
 import GoguVerif.Theorems.C05
 import GoguVerif.Theorems.C06
+import GoguVerif.Theorems.C16
 import GoguVerif.Theorems.C18
